@@ -38,14 +38,17 @@ void dsim_scenario() {
     int nu = 1 + dsim::choose(3);
     int uk[3]; for (int i = 0; i < nu; i++) uk[i] = dsim::choose(5);
     bool t0_drops_early = dsim::flip();
+    bool handoff_in_ctor = dsim::flip();      // the init function itself passes the promise to the resolver thread: resolution races with the constructor
     dsim::plan_note("ctor=%d resolver=%d users=", ctor, rk); for (int i = 0; i < nu; i++) dsim::plan_note("%d", uk[i]);
-    dsim::plan_note(" t0_drops_early=%d", (int)t0_drops_early);
+    dsim::plan_note(" t0_drops_early=%d handoff_in_ctor=%d", (int)t0_drops_early, (int)handoff_in_ctor);
     {
         cocls::promise<vs::Counted> prom;
         std::unique_ptr<SF> sf;
+        std::thread res;
+        auto hand_over = [&](cocls::promise<vs::Counted> p) { if (handoff_in_ctor) res = std::thread([q = std::move(p), rk]() mutable { resolve(q, rk); }); else prom = std::move(p); };
         switch (ctor) {
-        case 0: sf = std::make_unique<SF>([&](cocls::promise<vs::Counted> p) { prom = std::move(p); }); break;
-        case 1: sf = std::make_unique<SF>([&]() -> cocls::future<vs::Counted> { return [&](cocls::promise<vs::Counted> p) { prom = std::move(p); }; }); break;
+        case 0: sf = std::make_unique<SF>([&](cocls::promise<vs::Counted> p) { hand_over(std::move(p)); }); break;
+        case 1: sf = std::make_unique<SF>([&]() -> cocls::future<vs::Counted> { return [&](cocls::promise<vs::Counted> p) { hand_over(std::move(p)); }; }); break;
         case 2: sf = std::make_unique<SF>([&]() -> cocls::future<vs::Counted> {
                     if (rk == 0) return cocls::future<vs::Counted>::set_value(VAL);
                     if (rk == 1) return cocls::future<vs::Counted>::set_exception(vs::make_err(9));
@@ -53,7 +56,7 @@ void dsim_scenario() {
                 dsim::cell_set(RESOLVED, 1); break;
         default: sf = std::make_unique<SF>(); prom = sf->get_promise(); break;     // usable promise from a default-constructed object
         }
-        if (ctor != 2 && !prom) dsim::fail("C17.no_promise", "construction mode %d produced no usable promise", ctor);
+        if (ctor != 2 && !prom && !res.joinable()) dsim::fail("C17.no_promise", "construction mode %d produced no usable promise", ctor);
         std::vector<std::thread> th;
         for (int i = 0; i < nu; i++) {
             th.emplace_back([copy = *sf, i, k = uk[i], rk]() mutable {
@@ -66,8 +69,7 @@ void dsim_scenario() {
                 }
             });
         }
-        std::thread res;
-        if (ctor != 2) res = std::thread([p = std::move(prom), rk]() mutable { resolve(p, rk); });
+        if (ctor != 2 && !res.joinable()) res = std::thread([p = std::move(prom), rk]() mutable { resolve(p, rk); });
         if (t0_drops_early) sf.reset();      // possibly every handle is gone while the state is still pending
         if (res.joinable()) res.join();
         for (auto &t : th) t.join();
